@@ -92,6 +92,41 @@ def run(ctx):
     ctx.ob("R11.10", "integer spellings", not bad10, site=A.where(u.function("scanf_fmtstr")), detail={"tokens": n10, "mismatches": bad10[:6]},
            key="R11.10:integer spellings",
            what="the readers give integer spellings another value than they denote: %s" % bad10[:3])
+    ctx.rule("R11.11", "NULL-BUFFER-SCAN: the checker calls the scanner without a string buffer (NULL) only for a token it knows to be numeric - the call is unreachable when the range's type is not one of the numeric range types - because strings, symbols and blobs are stored through that buffer")
+    from .C19 import _guards as _g19
+    chkf = u.function("rtosc_skip_next_printed_arg")
+    nums = [d for d in A.walk(u.body(chkf)) if d.get("kind") == "VarDecl" and any(A.callee_name(c) == "numeric_range_types" for c in A.calls_in(d))]
+    ctx.require(len(nums) >= 1, "R11.11: the `numeric` flag of the range check was not found")
+    num_ids = {d["id"] for d in nums}
+    n11 = 0
+    for c in A.calls_in(u.body(chkf), "rtosc_scan_arg_val"):
+        a_ = A.kids(c)[1:]
+        if len(a_) < 4 or A.strip_casts(a_[3]).get("kind") not in ("GNUNullExpr", "CXXNullPtrLiteralExpr") and A.int_literal(a_[3]) != 0 and A.src(a_[3]).strip("() ") not in ("NULL", "(void *)0", "0"):
+            continue
+        n11 += 1
+        safe = False
+        for cond, pol in _g19(u, c):
+            ids_ = {y["referencedDecl"]["id"] for y in A.walk(cond) if y.get("kind") == "DeclRefExpr" and (y.get("referencedDecl") or {}).get("kind") == "VarDecl"}
+            if not (ids_ & num_ids):
+                continue
+            # with the flag false (and every other operand as permissive as possible) the guard must fail
+            holds_somehow = False
+            others = sorted(ids_ - num_ids)
+            import itertools as _it
+            for vals in _it.product((0, 1), repeat=len(others)):
+                env = {i_: 0 for i_ in num_ids}
+                env.update(dict(zip(others, vals)))
+                try:
+                    if bool(FD.Eval(env=env, call=lambda n_, a2, nd: 1).ev(cond)) == pol:
+                        holds_somehow = True
+                except FD.Unknown:
+                    holds_somehow = True
+            if not holds_somehow:
+                safe = True
+        ctx.ob("R11.11", "checker: rtosc_scan_arg_val(%s, ..., NULL, ...)" % A.src(a_[0]), safe, site=A.where(c),
+               key="R11.11:%s" % A.src(a_[0]),
+               what="the checker scans `%s` without a string buffer although the token may be a string, symbol or blob: the scanner stores through the null pointer" % A.src(a_[0]))
+    ctx.require(n11 >= 2, "R11.11: calls of the scanner without a string buffer not found in the checker (%d)" % n11)
     chk = u.function("rtosc_skip_next_printed_arg")
     scn = u.function("rtosc_scan_arg_val")
     swc, sws = R.top_switch(u, chk), R.top_switch(u, scn)
